@@ -35,6 +35,14 @@ def model_eval(T, vals, spec):
             v = spec["value"]
             vt = M.prim("float64") if isinstance(v, float) else M.prim("int64")
             return ("value", MO.fillna(T, vals, v, vt)[1])
+        if op == "optconvert":
+            how = spec["how"]
+            isopt = T[0] == "option"
+            if how == "bytemask" and isopt:
+                return ("value", [v is None for v in vals])
+            if how == "project" and isopt:
+                return ("value", [v for v in vals if v is not None])
+            return ("value", vals)
     except MO.ModelError as e:
         return ("error", str(e))
     except MO.Unsupported as e:
